@@ -161,9 +161,9 @@ def run(run):
         merges = [(1, 1, 2), (2, 2, 3), (3, 2, 3), (3, 3, 4), (0, 2, 2), (2, 0, 2), (1, 3, 3)]
         n4m2 = 1500
     else:
-        sets = [(1, 1, 2), (1, 2, 1), (2, 1, 2), (2, 2, 1), (2, 3, 0), (3, 1, 1), (3, 2, 0)]
-        merges = [(1, 1, 2), (2, 2, 3), (3, 2, 3), (0, 2, 2), (2, 0, 2)]
-        n4m2 = 120
+        sets = [(1, 1, 2), (1, 2, 1), (2, 1, 2), (2, 2, 1), (2, 3, 0), (3, 1, 1), (3, 2, 1)]
+        merges = [(1, 1, 2), (2, 2, 3), (3, 2, 3), (0, 2, 2), (2, 0, 2), (1, 3, 3)]
+        n4m2 = 400
     run.bounds = {"score [PxS] exhaustive (n, m, extra candidate elements)": sets, "n=4,m=2 sampled datasets": n4m2,
                   "candidates": "all rankings with ties of universe + extra elements; every candidate lacking one element (4 shapes each)",
                   "merge [S] (|left|, |right|, #values)": merges}
